@@ -25,6 +25,7 @@ WINDOW = ["span.end.checked", "span.end.taskended", "span.end.marked"]
 MARKFIRST = ["span.end.marked", "span.end.taskended"]
 
 
+START_ACTIONS = {"StartNext", "TCall", "TOnStartDone", "TRTLock", "TRTCheck", "TRTUnlock"}
 PROVIDER_ACTIONS = {"SCall", "SLock", "SSet", "SProc", "Reent", "SWait", "SClear", "SUnlock", "SRet", "UCall", "ULock", "UCheck",
                     "UShut", "URemove", "UUnlock", "URet", "GLock", "GCheck", "GUnlock"}
 
@@ -38,7 +39,8 @@ def udefs(user=0, evm=0, lim=0, pan=0, mshape="locked", pshape="locked", shares=
     mutators append one event to the FIFO (limit `lim`, `lim` events recorded beforehand), the first `pan` enders
     call End deferred during a panic."""
     return {"SAMPLED": "TRUE", "CHILDGUARD": "recording", "STOPPERS": "{}", "UNREGS": "{}", "WAITFOR": "{}", "PRECHECK": "TRUE",
-            "REENTREG": "FALSE", "UNREGSHAPE": "locked",
+            "REENTREG": "FALSE", "UNREGSHAPE": "locked", "WITHSTART": "FALSE", "STARTENDER": "none", "RTSHAPE": "plain",
+            "ZEROMUT": "{}", "ZSHAPE": "locked",
             "USERMUT": tla_set("m", user), "EVMUT": tla_set("m", evm), "EVLIMIT": lim,
             "EVINIT": "<<" + ", ".join('"i%d"' % (i + 1) for i in range(lim)) + ">>", "PANICKERS": tla_set("e", pan),
             "MSHAPE": mshape, "PSHAPE": pshape, "SNAPSHARES": "TRUE" if shares else "FALSE"}
@@ -72,10 +74,16 @@ def cfg_name(e, m, c, r, p, rt, g, shape=""):
     return "e%d-m%d-c%d-r%d-p%d-g%d-%s%s" % (e, m, c, r, p, g, "rt" if rt else "nort", ("-" + shape) if shape else "")
 
 
+def sdefs(n, ends_in_onstart=True, rtshape="plain"):
+    """tracer.Start as a process of its own; with ends_in_onstart ender e0 is the End a processor makes inside OnStart."""
+    return {"ENDERS": "{" + ", ".join(['"e0"'] * ends_in_onstart + ['"e%d"' % (i + 1) for i in range(n)]) + "}",
+            "WITHSTART": "TRUE", "STARTENDER": "e0" if ends_in_onstart else "none", "RTSHAPE": rtshape}
+
+
 def sc(name, script=None, **kw):
     d = dict(name=name, rt=True, nprocs=1, enders=2, endsPer=1, ts=True, muts=[], mutsPer=1, children=0, readers=0,
              readsPer=1, etimers=0, regs=0, lim=0, panickers=0, recordOnly=False, stoppers=0, unregs=0, reentReg=False,
-             waitFor=0, perturb=0.0)
+             waitFor=0, zero=False, endInOnStart=False, perturb=0.0)
     d.update(kw)
     if script is not None:
         d["script"] = script
@@ -151,6 +159,14 @@ def directed(shape):
         out.append(sc("mutators-before-end-" + tag, ["m1@call", "m1@ret+", "m2@call", "m2@ret+", "m3@call", "m3@ret+", "c1@call",
                                                      "c1@ret+", "r1@call", "r1@ret+", "e1@call", "e1@ret+"],
                       rt=rt, enders=1, nprocs=3, muts=["status", "name", "link"], children=1, readers=1, ts=False))
+    # a processor ends the span inside OnStart: every later call of the user on that span returns and finds it ended
+    for rt in (True, False):
+        out.append(sc("ended-inside-OnStart-" + ("rt" if rt else "nort"),
+                      ["m1@call", "m1@ret+", "c1@call", "c1@ret+", "r1@call", "r1@ret+", "e1@call", "e1@ret+"],
+                      rt=rt, enders=1, endInOnStart=True, muts=["attrs"], children=1, readers=1, nprocs=2))
+    # every limit 0: the mutations are observable only through the dropped counters
+    out += [dict(d, name=d["name"] + "-limit0", zero=True, lim=0) for d in out
+            if d["name"].startswith(("held-after-mark", "mutators-before-end", "sequential-double-end"))]
     # the same schedules once more on a RecordOnly span (recording, not sampled): nothing may differ
     out += [dict(d, name=d["name"] + "-recordonly", recordOnly=True) for d in out
             if d["name"].startswith(("held-after-mark", "mutators-before-end", "mutate-inside", "panic-format-while"))]
@@ -246,6 +262,22 @@ def run(ctx):
             ctx.note_inconclusive("model drift: TLC no longer finds %s (%s, got %s)" % (nm, want, got))
     # vacuity: every action of SpanEnd.tla is taken somewhere (Terminated is the final stuttering step; the
     # window actions do not exist in the markfirst shape, ERecheck only in the recheck shape)
+    # tracer.Start with a processor that ends the span inside OnStart (runtimeTrace then finds it ended); limit-0 mutators
+    r = ctx.tlc(S, "MC_SpanEnd", "MC_SpanEnd.cfg", name="mc-start", timeout=1200, coverage=True,
+                defines=mc_defs(2, 1, 1, 1, 2, True, 0, shape, False, pv=sdefs(2)))
+    zero_s = set(r["zero_cov"])
+    ctx.tlc(S, "MC_SpanEnd", "MC_SpanEnd.cfg", name="mc-start-plain", timeout=1200,
+            defines=mc_defs(2, 1, 0, 1, 1, True, 0, shape, known_model, pv=sdefs(2, ends_in_onstart=False)))
+    ctx.tlc(S, "MC_SpanEnd", "MC_SpanEnd.cfg", name="mc-limit0", timeout=1200,
+            defines=mc_defs(2, 2, 0, 1, 2, True, 0, shape, known_model, pv={"ZEROMUT": tla_set("m", 2)}))
+    for nm, pvd, want in (("D6-runtimetrace-leaks-span-lock", sdefs(1, rtshape="leak"), ("MutexOK", "Deadlock")),
+                          ("D7-limit0-counted-before-check", {"ZEROMUT": tla_set("m", 2), "ZSHAPE": "hoisted"}, ("Contract",))):
+        r = ctx.tlc(S, "MC_SpanEnd", "MC_SpanEnd.cfg", name="mc-" + nm, timeout=600, must_pass=False, count=False,
+                    defines=mc_defs(2, 2, 0, 1, 2, True, 0, "markfirst", False, pv=pvd))
+        got = r["violated"] or ("Deadlock" if "Deadlock" in (r["error"] or "") else None)
+        if got not in want:
+            ctx.note_inconclusive("model drift: TLC no longer finds %s (%s, got %s)" % (nm, want, got))
+    zero = {a for a in zero if a not in START_ACTIONS} | (zero_s & START_ACTIONS)
     zero = {a for a in zero if a not in PROVIDER_ACTIONS} | (zero_p & PROVIDER_ACTIONS)
     absent = ({"Terminated", "Next"} | ({"Reent"} if precheck and unreg == "locked" else set()) | ({"EUnlockForTask", "ERelock"} if shape == "markfirst" else set())
               | (set() if shape == "recheck" else {"ERecheck"})
@@ -351,6 +383,15 @@ def run(ctx):
             r = ctx.tlc(S, "MC_SpanEndSim", "MC_SpanEndSim.cfg", workers=1, simulate="num=%d" % nsim, depth=400, name="sim-provider",
                         defines=mc_defs(*c, shape=shape, known=True, pv=pvd), timeout=900)
             behaviours(c, r, "prov", xkw=dict(stoppers=1, waitFor=1, reentReg=True, unregs=(1 if unreg == "unlocked" else 0)))
+        # Start as a process (a processor ends the span inside OnStart, then runtimeTrace) and limit-0 mutators
+        c = (2, 1, 0, 1, 1, True, 0)
+        r = ctx.tlc(S, "MC_SpanEndSim", "MC_SpanEndSim.cfg", workers=1, simulate="num=%d" % (nsim // 2), depth=400, name="sim-onstart-end",
+                    defines=mc_defs(*c, shape=shape, known=True, pv=sdefs(2)), timeout=900)
+        behaviours(c, r, "st", xkw=dict(endInOnStart=True))
+        c = (2, 2, 0, 0, 2, True, 0)
+        r = ctx.tlc(S, "MC_SpanEndSim", "MC_SpanEndSim.cfg", workers=1, simulate="num=%d" % nsim, depth=400, name="sim-limit0",
+                    defines=mc_defs(*c, shape=shape, known=True, pv={"ZEROMUT": tla_set("m", 2)}), timeout=900)
+        behaviours(c, r, "z0", xkw=dict(zero=True))
         nbeh = len(scenarios)
         for rep in range(5 if thorough else 2):
             scenarios += directed(shape)
@@ -408,6 +449,8 @@ def run(ctx):
             traces.append((tf, "race-scripts"))
         tf, res = harness(rbin, "random", "race-random", ["-n", "2500"], seed=ctx.seed * 1000 + 99, env=env)
         traces.append((tf, "race-random"))
+        tf, res = harness(rbin, "bulk", "race-bulk", ["-n", "6000", "-enders", "4"], env=env)   # incl. the limit-0 hammer
+        traces.append((tf, "race-bulk"))
         for f in glob.glob(rlog + ".*"):
             race_reports += parse_race(open(f, errors="replace").read())
         ctx.extra["race_reports"] = len(race_reports)
@@ -433,7 +476,7 @@ def run(ctx):
                 lines = open(tf).read().splitlines()
             scen = []
             cfg = {}
-            for ln in lines[max(0, v["line"] - (3 if label == "bulk" else 100000)):v["line"]][::-1]:
+            for ln in lines[max(0, v["line"] - (3 if label.endswith("bulk") else 100000)):v["line"]][::-1]:
                 rec = json.loads(ln)
                 if rec.get("sc") != v["sc"]:
                     break
